@@ -58,9 +58,9 @@ func copyTree(src, dst string) error {
 
 var violRe = regexp.MustCompile(`(?m)^(?:VIOLATED|UNDECIDED) (\S+)`)
 
-func runMutants(root string) *MutantReport {
+func runMutants(root string, id string) *MutantReport {
 	rep := &MutantReport{}
-	patches, _ := filepath.Glob(filepath.Join(verifDir, "mutants", "*.patch"))
+	patches, _ := filepath.Glob(filepath.Join(verifDir, "mutants", id+"-*.patch"))
 	sort.Strings(patches)
 	if len(patches) == 0 {
 		return rep
@@ -74,7 +74,7 @@ func runMutants(root string) *MutantReport {
 		state        int // 0 detected, 1 missed, 2 stale
 	}
 	results := make([]res, len(patches))
-	sem := make(chan struct{}, 4)
+	sem := make(chan struct{}, 5)
 	var wg sync.WaitGroup
 	for i, p := range patches {
 		wg.Add(1)
